@@ -424,6 +424,53 @@ def run(ctx, rep):
     if not semi_fns:
         raise CheckerError('R07.8: anchor not found: no routine of the parser consumes the optional `;`')
 
+    # ---- R07.9 the parser sees tokens, not layout --------------------------------------------------
+    rep.rule('R07.9', 'the tree depends on the tokens only: whatever else the parser can learn from the tokenizer (a field, a method besides next()) never decides a branch of the parser')
+    from rules.shared import LocalFlow
+    n_obs = 0
+    for f in F.all_fns:
+        if f.crate != 'lib' or not f.path.startswith('parser::') or f.path.startswith('parser::tests'):
+            continue
+        obs = {}      # local -> what was observed
+        for b, si, st in f.stmts():
+            if st['k'] != 'assign':
+                continue
+            def fields_of(x, acc):
+                if isinstance(x, dict):
+                    if 'local' in x and 'proj' in x:
+                        for e in x['proj']:
+                            if isinstance(e, dict) and e.get('of', '').startswith('lexer::Tokenizer'):
+                                acc.append(e['name'])
+                    for v_ in x.values():
+                        fields_of(v_, acc)
+                elif isinstance(x, list):
+                    for v_ in x:
+                        fields_of(v_, acc)
+            acc = []
+            fields_of(st['rv'], acc)
+            if acc:
+                obs[st['place']['local']] = 'field %s of the tokenizer at %s' % (acc[0], span_loc(st['span']))
+        for b, t in f.calls():
+            nme = callee_name(t)
+            if nme.startswith('lexer::Tokenizer') and not nme.endswith('::new'):
+                obs[t['dest']['local']] = '%s() at %s' % (nme.split('::')[-1], span_loc(t['span']))
+            if nme.startswith('<lexer::Tokenizer') and not nme.endswith('Iterator>::next'):
+                obs[t['dest']['local']] = '%s() at %s' % (nme.split('::')[-1], span_loc(t['span']))
+        if not obs:
+            continue
+        LF = LocalFlow(f)
+        for b in range(len(f.blocks)):
+            t = f.term(b)
+            if t['k'] != 'switch':
+                continue
+            l = op_base_local(t.get('op'))
+            src = LF.reaches(l, obs) if l is not None else None
+            n_obs += 1 if src is not None else 0
+            if src is not None:
+                rep.bad('R07.9', f.path, 'branch on tokenizer state', 'a branch of the parser is decided by %s: two texts with the same tokens can give different trees' % obs[src], span_loc(t['span']))
+    if not n_obs:
+        rep.good('R07.9', 'parser', 'tokenizer observations', 'no branch of the parser depends on anything the tokenizer offers besides the tokens of next()', 'src/parser.rs')
+
     # never stored: the AST types have no Token field
     bad_fields = []
     for a in ('ast::Expr', 'ast::Stmt', 'ast::Operator'):
